@@ -57,12 +57,274 @@ func corner() []input {
 				Gens: []pipe.Gen{{Name: "g1", CustomNew: custom, Steps: steps}}}, Together: [][]string{{"a", "b"}, {"b", "a"}}})
 		}
 	}
+	// no custom New and a registered prototype that comes from a constructor (non-nil map and pointer fields): a per-package
+	// instance copied from the prototype instead of a zero value would share them between the packages of the run
+	for _, alias := range []bool{false, true} {
+		out = append(out, input{Scenario: pipe.Scenario{Module: m, All: !alias, Base: "zz_generated",
+			Gens: []pipe.Gen{{Name: "g1", Proto: true, Alias: alias, Steps: steps}}}, Together: [][]string{{"a", "b"}, {"b", "a"}}})
+	}
 	// the same with references through the import tracker (a shared tracker would leak b's imports into a's file)
 	use := map[string]pipe.Step{"example.com/m/a T0": {Use: []string{"strings.Builder"}}, "example.com/m/a T1": {Body: "var X = 1\n"},
 		"example.com/m/b T0": {Use: []string{"bytes.Buffer", "example.com/m/a.T0"}}}
 	out = append(out, input{Scenario: pipe.Scenario{Module: m, All: true, Base: "zz_generated",
 		Gens: []pipe.Gen{{Name: "g1", Steps: use}}}, Together: [][]string{{"a", "b"}, {"b", "a"}}})
+	// import names that collide: o refers to a/util and b/util (-> util, butil), p only to b/util, q only to a/util;
+	// whatever name p's and q's tables pick alone they must pick next to o
+	on := []string{"g1"}
+	cm := pipe.Module{ModPath: "example.com/m", GoVer: "1.22", Pkgs: []pipe.Pkg{
+		{Dir: "a/util", Name: "util", Types: []pipe.Type{{Name: "A"}}},
+		{Dir: "b/util", Name: "util", Types: []pipe.Type{{Name: "B"}}},
+		{Dir: "o", Name: "o", Imports: []string{"a/util", "b/util"}, Types: []pipe.Type{{Name: "T", Enabled: on}}},
+		{Dir: "p", Name: "p", Imports: []string{"b/util"}, Types: []pipe.Type{{Name: "T", Enabled: on}}},
+		{Dir: "q", Name: "q", Imports: []string{"a/util"}, Types: []pipe.Type{{Name: "T", Enabled: on}}}}}
+	cuse := map[string]pipe.Step{
+		"example.com/m/o T": {Use: []string{"example.com/m/a/util.A", "example.com/m/b/util.B"}},
+		"example.com/m/p T": {Use: []string{"example.com/m/b/util.B"}},
+		"example.com/m/q T": {Use: []string{"example.com/m/a/util.A"}}}
+	out = append(out, input{Scenario: pipe.Scenario{Module: cm, All: false, Base: "zz_generated",
+		Gens: []pipe.Gen{{Name: "g1", Steps: cuse}}}, Together: [][]string{{"o", "p", "q"}, {"q", "p", "o"}, {"p", "q"}}})
+	// package-level tags: a's file doc enables g1 for every type of a — and of no other package, whatever Globals is
+	tm := pipe.Module{ModPath: "example.com/m", GoVer: "1.22", Pkgs: []pipe.Pkg{
+		{Dir: "a", Name: "a", DocTags: []string{"g1"}, Types: []pipe.Type{{Name: "T0"}}},
+		{Dir: "b", Name: "b", Types: []pipe.Type{{Name: "T0"}, {Name: "T1", Enabled: []string{"g2"}}}}}}
+	tsteps := map[string]pipe.Step{"example.com/m/a T0": {Body: "var A = 1\n"}, "example.com/m/b T0": {Body: "var B0 = 1\n"}, "example.com/m/b T1": {Body: "var B1 = 1\n"}}
+	for _, gl := range []map[string][]string{nil, {}, {"gengo:g2": {""}}} {
+		out = append(out, input{Scenario: pipe.Scenario{Module: tm, All: gl == nil, Base: "zz_generated", Globals: gl, GlobalsSet: gl != nil,
+			Gens: []pipe.Gen{{Name: "g1", Steps: tsteps}, {Name: "g2", Steps: tsteps}}}, Together: [][]string{{"a", "b"}, {"b", "a"}}})
+	}
+	// documentation read through Context.Doc, also for a type of another package: what b's generator is told about a.T0
+	// must not depend on whether (and how often) a's own generation asked for it before
+	dm := pipe.Module{ModPath: "example.com/m", GoVer: "1.22", Pkgs: []pipe.Pkg{
+		{Dir: "a", Name: "a", Types: []pipe.Type{{Name: "T0", Enabled: on, Doc: []string{"T0 T0 is the name of the thing", "and a second line"}}}},
+		{Dir: "b", Name: "b", Imports: []string{"a"}, Types: []pipe.Type{{Name: "T0", Enabled: on, Doc: []string{"T0 is plain"}}}}}}
+	dsteps := map[string]pipe.Step{"example.com/m/a T0": {DocOf: []string{"example.com/m/a.T0"}},
+		"example.com/m/b T0": {DocOf: []string{"example.com/m/a.T0", "example.com/m/b.T0"}}}
+	for _, all := range []bool{false, true} {
+		out = append(out, input{Scenario: pipe.Scenario{Module: dm, All: all, Base: "zz_generated",
+			Gens: []pipe.Gen{{Name: "g1", Steps: dsteps}}}, Together: [][]string{{"a", "b"}, {"b", "a"}}})
+	}
 	return out
+}
+
+var tagDirs = []string{"a", "a/sub", "b", "c", "d"}
+
+func pickDirs(r *core.RNG, n int) []string {
+	perm := append([]string{}, tagDirs...)
+	for i := range perm {
+		j := i + r.Intn(len(perm)-i)
+		perm[i], perm[j] = perm[j], perm[i]
+	}
+	dirs := perm[:n]
+	sort.Strings(dirs)
+	return dirs
+}
+
+func lastElem(dir string) string { return dir[strings.LastIndex(dir, "/")+1:] }
+
+// tagScenario: tags inherited from the package's file doc and from GeneratorArgs.Globals (nil / empty but non-nil / one
+// generator enabled everywhere); most types carry no tag of their own, so whether a package gets a file at all depends
+// on exactly the tags of that package.
+func tagScenario(r *core.RNG) pipe.Scenario {
+	sc := pipe.Scenario{Base: "zz_generated", All: r.Chance(50), Force: r.Chance(10)}
+	m := &sc.Module
+	m.ModPath, m.GoVer = core.Pick(r, []string{"example.com/m", "m.test/mod"}), "1.22"
+	names := []string{"g1", "g2"}[:1+r.Intn(2)]
+	for _, n := range names {
+		sc.Gens = append(sc.Gens, pipe.Gen{Name: n, CustomNew: r.Chance(30), Proto: r.Chance(40), Alias: r.Chance(30), Steps: map[string]pipe.Step{}})
+	}
+	switch k := r.Intn(10); {
+	case k < 3:
+	case k < 7:
+		sc.GlobalsSet = true
+	default:
+		sc.GlobalsSet = true
+		sc.Globals = map[string][]string{"gengo:" + core.Pick(r, names): {""}}
+	}
+	for _, d := range pickDirs(r, 2+r.Intn(3)) {
+		p := pipe.Pkg{Dir: d, Name: lastElem(d)}
+		for _, n := range names {
+			if r.Chance(35) {
+				p.DocTags = append(p.DocTags, n)
+			}
+		}
+		nt := 1 + r.Intn(3)
+		for k := 0; k < nt; k++ {
+			t := pipe.Type{Name: fmt.Sprintf("T%d", k)}
+			if r.Chance(20) {
+				t.Name, t.Alias = fmt.Sprintf("U%d", k), "int"
+			}
+			for gi, n := range names {
+				if r.Chance(30) {
+					t.Enabled = append(t.Enabled, n)
+				}
+				st := pipe.Step{Body: fmt.Sprintf("var V_%s_%s = 1\n", n, t.Name)}
+				switch q := r.Intn(10); {
+				case q < 2:
+					st.Body = ""
+				case q < 6:
+					st.Count, st.Helper = r.Bool(), r.Bool()
+				}
+				sc.Gens[gi].Steps[m.PkgPath(d)+" "+t.Name] = st
+			}
+			p.Types = append(p.Types, t)
+		}
+		if r.Chance(30) {
+			m.Files = append(m.Files, pipe.File{Path: d + "/zz_generated." + names[0] + ".go", Content: "package " + p.Name + "\n\n// previous output of " + names[0] + "\n"})
+		}
+		m.Pkgs = append(m.Pkgs, p)
+	}
+	return sc
+}
+
+var docPool = []string{"{t} {t} is the name of the thing", "{t} is plain", "{t} {t} {t} three times", "{t}", "Something else entirely",
+	"{t}x is not the name as a word", "{t}  {t} after two blanks"}
+
+// docScenario: every type carries a doc comment (some start with the declared name more than once: `// ID ID of ...`);
+// generators render what Context.Doc reports for their own type and for types of the packages their package imports.
+func docScenario(r *core.RNG) pipe.Scenario {
+	sc := pipe.Scenario{Base: "zz_generated", All: r.Chance(40)}
+	m := &sc.Module
+	m.ModPath, m.GoVer = "example.com/m", "1.22"
+	names := []string{"g1", "g2"}[:1+r.Intn(2)]
+	for _, n := range names {
+		sc.Gens = append(sc.Gens, pipe.Gen{Name: n, CustomNew: r.Chance(30), Steps: map[string]pipe.Step{}})
+	}
+	dirs := pickDirs(r, 2+r.Intn(3))
+	rank := map[string]int{} // imports go from lower to higher rank: acyclic, in either direction of the sorted order
+	for _, d := range dirs {
+		rank[d] = r.Intn(100)
+	}
+	types := map[string][]string{}
+	for _, d := range dirs {
+		p := pipe.Pkg{Dir: d, Name: lastElem(d)}
+		nt := 1 + r.Intn(2)
+		for k := 0; k < nt; k++ {
+			t := pipe.Type{Name: core.Pick(r, []string{"ID", "Kind", "T"}) + fmt.Sprint(k), Enabled: names}
+			t.Doc = []string{strings.ReplaceAll(core.Pick(r, docPool), "{t}", t.Name)}
+			if r.Chance(30) {
+				t.Doc = append(t.Doc, "second line of "+t.Name)
+			}
+			p.Types = append(p.Types, t)
+			types[d] = append(types[d], t.Name)
+		}
+		for _, d2 := range dirs {
+			if rank[d] < rank[d2] && r.Chance(65) {
+				p.Imports = append(p.Imports, d2)
+			}
+		}
+		m.Pkgs = append(m.Pkgs, p)
+	}
+	for _, p := range m.Pkgs {
+		for _, tn := range types[p.Dir] {
+			for gi := range sc.Gens {
+				var st pipe.Step
+				if r.Chance(60) {
+					st.DocOf = append(st.DocOf, m.PkgPath(p.Dir)+"."+tn)
+				}
+				for _, im := range p.Imports {
+					for _, ft := range types[im] {
+						if r.Chance(70) {
+							st.DocOf = append(st.DocOf, m.PkgPath(im)+"."+ft)
+						}
+					}
+				}
+				if r.Chance(20) {
+					st.Count, st.Helper = true, r.Bool()
+				}
+				sc.Gens[gi].Steps[m.PkgPath(p.Dir)+" "+tn] = st
+			}
+		}
+	}
+	return sc
+}
+
+// collisions draws a module in which several packages share their last path element(s), so that the import table has
+// to fall back to longer local names (util, butil, ...), and generators whose per-type renderings refer to random
+// subsets of them (and of colliding standard-library packages) through the import tracker.
+func collisions(r *core.RNG) pipe.Scenario {
+	var sc pipe.Scenario
+	sc.Base = "zz_generated"
+	sc.All = r.Chance(40)
+	m := &sc.Module
+	m.ModPath = core.Pick(r, []string{"example.com/m", "example.com/x/y"})
+	m.GoVer = "1.22"
+	leaf := core.Pick(r, []string{"util", "types", "v1", "template"})
+	parents := []string{"a", "b", "x/c"}
+	if r.Chance(30) {
+		parents = []string{"a", "b/a", "c/b/a"} // longer common suffixes: a/<leaf>, b/a/<leaf>, c/b/a/<leaf>
+	}
+	parents = parents[:2+r.Intn(2)]
+	var refs []string
+	var libDirs []string
+	for _, par := range parents {
+		d := par + "/" + leaf
+		libDirs = append(libDirs, d)
+		m.Pkgs = append(m.Pkgs, pipe.Pkg{Dir: d, Name: strings.ReplaceAll(leaf, "-", "_"), Types: []pipe.Type{{Name: "X"}}})
+		refs = append(refs, m.PkgPath(d)+".X")
+	}
+	std := [][]string{{"text/template.Template", "html/template.Template"}, {"math/rand.Rand", "crypto/rand.Reader"}, {"go/types.Type", "go/token.Pos"}}
+	if leaf == "template" || r.Chance(40) {
+		refs = append(refs, std[0]...)
+	}
+	if r.Chance(25) {
+		refs = append(refs, std[1]...)
+	}
+	users := []string{"o", "p", "q", "r"}[:2+r.Intn(3)]
+	if r.Chance(25) { // a user that sorts before the colliding packages
+		users[0] = "0first"
+	}
+	ngen := 1 + r.Intn(2)
+	names := []string{"g1", "g2"}[:ngen]
+	for _, name := range names {
+		sc.Gens = append(sc.Gens, pipe.Gen{Name: name, CustomNew: r.Chance(30), Proto: r.Chance(40), Steps: map[string]pipe.Step{}})
+	}
+	for ui, u := range users {
+		p := pipe.Pkg{Dir: u, Name: "u" + fmt.Sprint(ui)}
+		imported := map[string]bool{}
+		nt := 1 + r.Intn(2)
+		for k := 0; k < nt; k++ {
+			t := pipe.Type{Name: fmt.Sprintf("T%d", k)}
+			for gi, name := range names {
+				if k > 0 && !r.Chance(70) {
+					continue
+				}
+				t.Enabled = append(t.Enabled, name)
+				var st pipe.Step
+				switch q := r.Intn(10); {
+				case q < 3: // everything, in a random order
+					st.Use = append(st.Use, refs...)
+					for i := range st.Use {
+						j := i + r.Intn(len(st.Use)-i)
+						st.Use[i], st.Use[j] = st.Use[j], st.Use[i]
+					}
+				case q < 7: // a single one
+					st.Use = []string{core.Pick(r, refs)}
+				default:
+					for _, ref := range refs {
+						if r.Chance(50) {
+							st.Use = append(st.Use, ref)
+						}
+					}
+				}
+				if r.Chance(30) {
+					st.Count, st.Helper = r.Bool(), r.Bool()
+				}
+				for _, ref := range st.Use {
+					for _, d := range libDirs {
+						if strings.HasPrefix(ref, m.PkgPath(d)+".") && !imported[d] {
+							imported[d] = true
+							p.Imports = append(p.Imports, d)
+						}
+					}
+				}
+				sc.Gens[gi].Steps[m.PkgPath(u)+" "+t.Name] = st
+			}
+			p.Types = append(p.Types, t)
+		}
+		sort.Strings(p.Imports)
+		m.Pkgs = append(m.Pkgs, p)
+	}
+	return sc
 }
 
 func subsets(dirs []string) [][]string {
@@ -107,6 +369,9 @@ func (prop) Generate(r *core.RNG, tier string) []json.RawMessage {
 		sc.Entry = nil
 		imports := r.Chance(20)
 		for gi := range sc.Gens { // make the generators stateful
+			if !sc.Gens[gi].CustomNew && r.Chance(50) {
+				sc.Gens[gi].Proto = true
+			}
 			for k, st := range sc.Gens[gi].Steps {
 				if st.Res == "" && !strings.Contains(st.Body, "(\n") && r.Chance(70) {
 					st.Count = r.Chance(70)
@@ -125,29 +390,65 @@ func (prop) Generate(r *core.RNG, tier string) []json.RawMessage {
 		for _, p := range sc.Module.Pkgs {
 			dirs = append(dirs, p.Dir)
 		}
-		in := input{Scenario: sc}
-		subs := subsets(dirs)
-		if tier == "thorough" {
-			for _, s := range subs {
-				in.Together = append(in.Together, s)
-				if len(s) > 1 {
-					in.Together = append(in.Together, reversed(s))
-				}
-			}
-		} else {
-			in.Together = append(in.Together, dirs, reversed(dirs))
-			for k := 0; k < 2 && len(subs) > 1; k++ {
-				s := append([]string{}, subs[r.Intn(len(subs))]...)
-				for i := range s {
-					j := i + r.Intn(len(s)-i)
-					s[i], s[j] = s[j], s[i]
-				}
-				in.Together = append(in.Together, s)
+		out = append(out, enc(withRuns(r, sc, dirs, tier)))
+	}
+	nc := 8
+	if tier == "thorough" {
+		nc = 60
+	}
+	for i := 0; i < nc; i++ {
+		sc := collisions(r)
+		var users []string // the library packages have no tagged types: request the users only
+		for _, p := range sc.Module.Pkgs {
+			if len(p.Types) > 0 && len(p.Types[0].Enabled) > 0 {
+				users = append(users, p.Dir)
 			}
 		}
-		out = append(out, enc(in))
+		out = append(out, enc(withRuns(r, sc, users, tier)))
+	}
+	nt, nd := 8, 6
+	if tier == "thorough" {
+		nt, nd = 60, 40
+	}
+	for i := 0; i < nt+nd; i++ {
+		var sc pipe.Scenario
+		if i < nt {
+			sc = tagScenario(r)
+		} else {
+			sc = docScenario(r)
+		}
+		var dirs []string
+		for _, p := range sc.Module.Pkgs {
+			dirs = append(dirs, p.Dir)
+		}
+		out = append(out, enc(withRuns(r, sc, dirs, tier)))
 	}
 	return out
+}
+
+// withRuns chooses the together-runs over the given package dirs.
+func withRuns(r *core.RNG, sc pipe.Scenario, dirs []string, tier string) input {
+	in := input{Scenario: sc}
+	subs := subsets(dirs)
+	if tier == "thorough" {
+		for _, s := range subs {
+			in.Together = append(in.Together, s)
+			if len(s) > 1 {
+				in.Together = append(in.Together, reversed(s))
+			}
+		}
+		return in
+	}
+	in.Together = append(in.Together, dirs, reversed(dirs))
+	for k := 0; k < 2 && len(subs) > 1; k++ {
+		s := append([]string{}, subs[r.Intn(len(subs))]...)
+		for i := range s {
+			j := i + r.Intn(len(s)-i)
+			s[i], s[j] = s[j], s[i]
+		}
+		in.Together = append(in.Together, s)
+	}
+	return in
 }
 
 type runObs struct {
@@ -183,10 +484,12 @@ func (prop) Run(raw json.RawMessage, scratch string) core.Result {
 		return res
 	}
 	usesImports := false
+	usesDocs := false
 	stateful := false
 	for _, g := range in.Gens {
 		for _, st := range g.Steps {
 			usesImports = usesImports || len(st.Use) > 0
+			usesDocs = usesDocs || len(st.DocOf) > 0
 			stateful = stateful || st.Count || st.Helper
 		}
 	}
@@ -225,7 +528,16 @@ func (prop) Run(raw json.RawMessage, scratch string) core.Result {
 	}
 	singles := map[string]*pipe.Observation{}
 	var singlePaths []string
+	requested := map[string]bool{}
+	for _, dirs := range in.Together {
+		for _, d := range dirs {
+			requested[d] = true
+		}
+	}
 	for _, p := range in.Module.Pkgs {
+		if !requested[p.Dir] { // never compared: only loaded (or processed under All) next to the requested ones
+			continue
+		}
 		o, ok := runOne([]string{p.Dir})
 		if !ok {
 			res.Tags = append(res.Tags, "run-failed-to-start")
@@ -272,7 +584,8 @@ func (prop) Run(raw json.RawMessage, scratch string) core.Result {
 		}
 	}
 
-	if !usesImports {
+	goSideOnly := usesImports || usesDocs
+	if !goSideOnly {
 		var tr, sg []string
 		for _, o := range together {
 			tr = append(tr, coqRun(o))
@@ -283,8 +596,8 @@ func (prop) Run(raw json.RawMessage, scratch string) core.Result {
 		res.Coq = fmt.Sprintf("(mk_case %s %s %s\n   %s\n   %s\n   %s\n   %s)", core.CoqBool(in.All), core.CoqBool(in.Force), core.Hex(in.Base),
 			pipe.CoqGens(in.Gens), pipe.CoqTree(together[0].Before), core.CoqList(tr), core.CoqList(sg))
 	}
-	if usesImports {
-		// the import tracker is not modelled: the property is decided on the Go side above; the Coq case carries no runs
+	if goSideOnly {
+		// the import tracker and Context.Doc are not modelled: the property is decided on the Go side above; the Coq case carries no runs
 		res.Coq = fmt.Sprintf("(mk_case %s %s %s [] [] [] [])", core.CoqBool(in.All), core.CoqBool(in.Force), core.Hex(in.Base))
 	}
 	res.Nontrivial = compared > 0 && len(in.Module.Pkgs) >= 2
@@ -300,6 +613,32 @@ func (prop) Run(raw json.RawMessage, scratch string) core.Result {
 	if usesImports {
 		res.Tags = append(res.Tags, "import-tracker(go-side-only)")
 	}
+	if usesDocs {
+		res.Tags = append(res.Tags, "context-doc(go-side-only)")
+		foreign := false
+		for _, g := range in.Gens {
+			for k, st := range g.Steps {
+				for _, ref := range st.DocOf {
+					foreign = foreign || ref[:strings.LastIndex(ref, ".")] != k[:strings.Index(k, " ")]
+				}
+			}
+		}
+		if foreign {
+			res.Tags = append(res.Tags, "context-doc:type-of-another-package")
+		}
+	}
+	switch {
+	case len(in.Globals) > 0:
+		res.Tags = append(res.Tags, "globals:enable-a-generator")
+	case in.GlobalsSet:
+		res.Tags = append(res.Tags, "globals:empty-non-nil")
+	}
+	for _, p := range in.Module.Pkgs {
+		if len(p.DocTags) > 0 {
+			res.Tags = append(res.Tags, "package-doc-tags")
+			break
+		}
+	}
 	for _, g := range in.Gens {
 		if g.CustomNew {
 			res.Tags = append(res.Tags, "custom-New")
@@ -312,6 +651,18 @@ func (prop) Run(raw json.RawMessage, scratch string) core.Result {
 			break
 		}
 	}
+	for _, g := range in.Gens {
+		if !g.CustomNew && g.Proto {
+			res.Tags = append(res.Tags, "reflect-New:prototype-with-map-and-pointer")
+			break
+		}
+	}
+	if localRefs, collide := importShape(in); localRefs {
+		res.Tags = append(res.Tags, "import-tracker:module-local-references")
+		if collide {
+			res.Tags = append(res.Tags, "import-tracker:colliding-names-in-one-file")
+		}
+	}
 	for _, o := range together {
 		if !done(o) {
 			res.Tags = append(res.Tags, "a-together-run-failed")
@@ -322,6 +673,30 @@ func (prop) Run(raw json.RawMessage, scratch string) core.Result {
 		res.Tags = append(res.Tags, "sum-present")
 	}
 	return res
+}
+
+// importShape: does a generator refer to packages of the module, and does one (package, generator) file refer to two
+// packages with the same last path element (so that the import table must rename one of them)?
+func importShape(in input) (localRefs, collide bool) {
+	for _, g := range in.Gens {
+		perPkg := map[string]map[string]string{} // package -> last element -> path
+		for k, st := range g.Steps {
+			pkg := k[:strings.Index(k, " ")]
+			for _, u := range st.Use {
+				path := u[:strings.LastIndex(u, ".")]
+				localRefs = localRefs || strings.HasPrefix(path, in.Module.ModPath+"/")
+				last := path[strings.LastIndex(path, "/")+1:]
+				if perPkg[pkg] == nil {
+					perPkg[pkg] = map[string]string{}
+				}
+				if prev, ok := perPkg[pkg][last]; ok && prev != path {
+					collide = true
+				}
+				perPkg[pkg][last] = path
+			}
+		}
+	}
+	return
 }
 
 func (prop) Shrink(raw json.RawMessage) []json.RawMessage {
@@ -345,6 +720,30 @@ func (prop) Shrink(raw json.RawMessage) []json.RawMessage {
 	}
 	sc := in.Scenario
 	sc.Entry = nil
+	for gi, g := range in.Gens {
+		for k, st := range g.Steps {
+			for ui := range st.Use {
+				var c input
+				_ = json.Unmarshal(raw, &c)
+				s2 := c.Gens[gi].Steps[k]
+				s2.Use = append(append([]string{}, st.Use[:ui]...), st.Use[ui+1:]...)
+				c.Gens[gi].Steps[k] = s2
+				out = append(out, enc(c))
+			}
+		}
+	}
+	for gi, g := range in.Gens {
+		for k, st := range g.Steps {
+			for ui := range st.DocOf {
+				var c input
+				_ = json.Unmarshal(raw, &c)
+				s2 := c.Gens[gi].Steps[k]
+				s2.DocOf = append(append([]string{}, st.DocOf[:ui]...), st.DocOf[ui+1:]...)
+				c.Gens[gi].Steps[k] = s2
+				out = append(out, enc(c))
+			}
+		}
+	}
 	for _, c := range pipe.ShrinkScenario(sc) {
 		ok := true
 		have := map[string]bool{}
@@ -353,6 +752,31 @@ func (prop) Shrink(raw json.RawMessage) []json.RawMessage {
 		}
 		for d := range used {
 			ok = ok && have[d]
+		}
+		imports := map[string]bool{} // "<importing pkg path> <imported pkg path>"
+		for _, p := range c.Module.Pkgs {
+			for _, im := range p.Imports {
+				imports[c.Module.PkgPath(p.Dir)+" "+c.Module.PkgPath(im)] = true
+			}
+		}
+		for _, g := range c.Gens { // a documented foreign type stays a type of a package the reader imports (so it is loaded in every run)
+			for k, st := range g.Steps {
+				self := k[:strings.Index(k, " ")]
+				for _, ref := range st.DocOf {
+					if path := ref[:strings.LastIndex(ref, ".")]; path != self {
+						ok = ok && imports[self+" "+path]
+					}
+				}
+			}
+		}
+		for _, g := range c.Gens { // references stay references to packages that exist in the module
+			for _, st := range g.Steps {
+				for _, u := range append(append([]string{}, st.Use...), st.DocOf...) {
+					if path := u[:strings.LastIndex(u, ".")]; strings.HasPrefix(path, c.Module.ModPath+"/") {
+						ok = ok && have[strings.TrimPrefix(path, c.Module.ModPath+"/")]
+					}
+				}
+			}
 		}
 		if ok {
 			out = append(out, enc(input{Scenario: c, Together: in.Together}))
